@@ -6,7 +6,7 @@ from genlib import *
 LEAN_MODULES = ["MpirProofs.Props.C16_binsmall"]
 THEOREMS = ["Mpir.Numth.mulfunc_identities", "Mpir.Numth.maxfacs_spec", "Mpir.Numth.smallk_tables_ok", "Mpir.Numth.smallk_shift_nonneg",
             "Mpir.Numth.hensel_rsh_exact_division", "Mpir.Numth.smallk_bin_uiui_spec", "Mpir.Numth.smallkdc_bin_uiui_spec",
-            "Mpir.Numth.bdiv_inverse_spec", "Mpir.Numth.bdiv_quotient_fits", "Mpir.Numth.bdiv_bin_uiui_spec",
+            "Mpir.Numth.bdiv_inverse_spec", "Mpir.Numth.bdiv_quotient_fits", "Mpir.Numth.bdiv_bin_uiui_spec", "Mpir.Numth.choose_two_adic_lt_limb", "Mpir.Numth.bdiv_shift_count_spec",
             "Mpir.Numth.mpz_bin_uiui_spec", "Mpir.Numth.mfac_gcd_reduction", "Mpir.Numth.mfac_uiui_spec"]
 TRUSTED = ["hand-written models of mpz_smallk_bin_uiui / mpz_smallkdc_bin_uiui / mpz_bdiv_bin_uiui / mul1..mul8 / "
            "mpn_divrem_hensel_rsh_qr_1_preinv / mpz_mfac_uiui in lean/Mpir/Model/Numth.lean (tied by the ops smallk_bin_uiui, smallkdc_bin_uiui, "
